@@ -237,7 +237,7 @@ PROPS = {
     "C05": {
         "engines": [tree_engine("step,burst,burst", ("C05",), ("sub", "clone", "root", "mon"), 1500, 25000),
                     tree_engine("overflow,stall", ("C05",), ("sub", "clone", "root", "mon"), 300, 5000),
-                    ctrl_engine("", ("C05",), 300, 5000),
+                    ctrl_engine("", ("C05",), 500, 6000),
                     # "reading the cache never returns an older version": the cache engine's content oracle, restricted to
                     # the cases in which the cache holds an OLDER version than the reference
                     {"go": "cachediff", "driver": "cache", "classify": cache_older_cls, "nontrivial": has_events, "resets": ["new"], "ignore_known": True}],
@@ -378,7 +378,7 @@ PROPS = {
     "C09": {
         "engines": [{"go": "join", "bin": "kconc", "driver": "join",
                      "actions": ("scenario", "jstart", "jsrc", "jmid", "jdst", "jrelease", "burst-begin", "burst-end", "jclose", "end"),
-                     "args_quick": ["-n", "360"], "args_thorough": ["-n", "16000"],
+                     "args_quick": ["-n", "630"], "args_thorough": ["-n", "16000"],
                      "classify": ctrl_cls(("C09",)), "resets": ["scenario"],
                      "nontrivial": lambda l: l.startswith("(jobs") and "(obj" in l}],
         "rule": "join engine: all eight generated joins and IngressPods (round robin) over two / three fake API servers; source objects with "
